@@ -5,6 +5,7 @@ import (
 	"encoding/json"
 	"errors"
 	"fmt"
+	"math"
 	"reflect"
 	"sort"
 	"strings"
@@ -123,6 +124,16 @@ func UnmarshalChain(data []byte, vs ...any) error {
 	}
 
 	return errors.Join(errs...)
+}
+
+// AddSat adds a non-negative duration to an instant; a sum beyond the int64
+// range is the largest instant, not a negative one.
+func AddSat(t int64, d int64) int64 {
+	if d > 0 && t > math.MaxInt64-d {
+		return math.MaxInt64
+	}
+
+	return t + d
 }
 
 func RemoveWhitespace(s string) string {
